@@ -205,6 +205,13 @@ def c13_b(ctx: Ctx):
             added.append(canon(a0.value))
         if isinstance(a0, ast.Assign) and any(canon(t) in exnames for t in a0.targets) and (exnames & names_in(a0.value)):
             added.append(canon(a0.value))
+        # the list is built as a literal that already contains the reserved names: [*patterns, src.FN_STATE_POINT] / patterns + [src.FN_STATE_POINT]
+        if isinstance(a0, ast.Assign) and any(canon(t) in exnames for t in a0.targets):
+            for x in ast.walk(a0.value):
+                if isinstance(x, (ast.List, ast.Tuple)):
+                    for el in x.elts:
+                        if not isinstance(el, ast.Starred):
+                            added.append(canon(el))
         for a in added:
             if "FN_STATE_POINT" in a:
                 sp_app.add(n.id)
